@@ -6,6 +6,9 @@ HERE = os.path.dirname(os.path.dirname(os.path.abspath(__file__)))
 
 # id -> (technique, level text, level note, design ref)
 CLAIMED = {
+ "C09": ("relational bounds analysis with per-path Fourier-Motzkin refutation (burst arithmetic of padBurst over all tail/target pairs, makePacket's appended length, paranoid-mode length guards, makePacket precondition and panic unreachability), type-level array bounds of network writes, value-origin rules (targets and delays are samples), guard-set and E7 term agreement for seed adoption and the three construction sites, over go/ssa",
+         "Decides: frames and IAT-mode writes are slices of [1448]byte arrays; burst targets / paranoid lengths / delays are samples of the connection's distributions; only a client adopts a 24-byte seed, lenDist from the payload and iatDist from SHA-256 of it, the server sends the seed its own distribution uses and construction sites agree; makePacket appends exactly 21+len(data)+padLen; every success path of padBurst ends on the target (mod 1448) or the target plus a header and the latter only when the needed padding is at most a header; paranoid writes have at least the sampled length buffered; panics on the Write path unreachable except the recorded finding F1 (zero sample in paranoid mode). Termination of the paranoid resampling loop and timing are not decided.",
+         "go/types+go/ssa faithful; contract table (bytes.Buffer, secretbox.Seal, Sample in [minValue,maxValue])", "DESIGN.md section 4, C09"),
  "C12": ("effect/ownership analysis of the table generation (no nondeterministic source, draws only on the seeded generator, must-written-before-read dataflow over Reset), E7 expression shape of Sample/IntRange/Int63/NextBlock, relational bounds analysis (E8) for IntRange's [min,max] ensures and the table size, lock-region rule over go/ssa",
          "Decides: the tables are a function of seed, bounds and bias flag only (no other randomness, no map iteration, no carry-over from the previous Reset, non-nil seeds at every call site); Sample = minValue + values[i or alias[i]] with an unmodified permutation prefix; generator layout seed[0:16]/seed[16:24], OFB step, returned copy, 63-bit big-endian outputs; IntRange in [min,max] with range (max+1)-min; 1 <= table size <= 100; Reset/Sample in one critical section. Probabilities and alias-table exactness (floating point) are not decided.",
          "go/types+go/ssa faithful; math/rand.Rand deterministic over its Source; contract table", "DESIGN.md section 4, C12"),
